@@ -15,10 +15,13 @@ package filters
 //@            rowData[k] == byte(raw[k] - pngPred(ft, (k >= bpp ? raw[k-bpp] : 0), prev[k], (k >= bpp ? prev[k-bpp] : 0)))
 
 //@ func decodePNGRow results (res, err)
-//@   property C05
+//@   property C05, C02
+//@   flags robust
 //@   ghost raw []byte
 //@   ghost prev []byte
-//@   requires len(raw) == len(rowData) && bytesPerPixel >= 1 && rowLength == len(rowData) && rowNum >= 0
+//@   requires bytesPerPixel >= 1 && rowLength == len(rowData) && rowNum >= 0
+//@   requires len(raw) == len(rowData)
+//@   ensures one_byte_per_input_byte: !err ==> len(res) == len(rowData)
 //@   requires rowNum > 0 ==> len(prevRows) >= rowNum * rowLength
 //@   requires len(prev) == len(rowData)
 //@   requires forall k int :: {prev[k]} 0 <= k && k < len(rowData) ==> prev[k] == (rowNum > 0 ? prevRows[(rowNum-1)*rowLength + k] : 0)
@@ -36,7 +39,8 @@ package filters
 //@     data[r*rs] <= 4 && pngRowEnc(data[r*rs+1 : r*rs+rs], data[r*rs], img[r*rl : r*rl+rl], (r > 0 ? img[(r-1)*rl : r*rl] : zeros(rl)), bpp)
 
 //@ func applyPNGPredictor results (res, err)
-//@   property C05
+//@   flags pure, robust
+//@   property C05, C02
 //@   ghost img []byte
 //@   let cols = getIntParam(params, "Columns", 1)
 //@   let colors = getIntParam(params, "Colors", 1)
@@ -49,19 +53,23 @@ package filters
 //@   ensures bpc_unsupported: bpc != 8 ==> err
 //@   ensures geometry: cols <= 0 || colors <= 0 ==> err
 //@   ensures inverse: !err ==> len(res) == len(img) && forall k int :: 0 <= k && k < len(img) ==> res[k] == img[k]
-//@   ensures accepts: bpc == 8 && cols >= 1 && colors >= 1 && mod(len(data), rs) == 0 ==> !err
+//@   ensures accepts_encoder_output: len(img) >= 0 && bpc == 8 && cols >= 1 && colors >= 1 && mod(len(data), rs) == 0 ==> !err
+//@   ensures size: !err ==> cols >= 1 && colors >= 1 && len(res) == div(len(data), rs) * rl
 //@   bind decodePNGRow.raw = img[row*rl : row*rl + rl]
 //@   bind decodePNGRow.prev = (row > 0 ? img[(row-1)*rl : row*rl] : zeros(rl))
 //@   loop 0:
 //@     invariant 0 <= row && row <= numRows && rowSize == rs && rl >= 1 && columns*colors == rl && bytesPerPixel == colors && colors >= 1
-//@     invariant numRows >= 0 && numRows * rowSize == len(data) && len(result) == numRows * rl && len(img) == len(result)
+//@     invariant numRows >= 0 && numRows * rowSize == len(data) && len(result) == numRows * rl
+//@     invariant len(img) == len(result)
 //@     invariant row * rl >= 0 && row * rl <= len(result) && row * rowSize >= 0
 //@     invariant forall k int :: 0 <= k && k < row * rl ==> result[k] == img[k]
 //@     hint (row+1) * rowSize <= len(data) && (row+1) * rl <= len(result)
+//@     decreases numRows - row
 //@     hint pngRowOK(data, img, row, rs, rl, colors)
 
 //@ func applyTIFFPredictor2 results (res, err)
-//@   property C05
+//@   flags pure, robust
+//@   property C05, C02
 //@   ghost raw []byte
 //@   ghost cg []int
 //@   let cols = getIntParam(params, "Columns", 1)
@@ -81,10 +89,12 @@ package filters
 //@     invariant 0 <= row && row * rowSize >= 0 && rowSize == rs && rowSize >= 1 && colors >= 1 && len(result) == len(data) && row * rowSize <= len(data)
 //@     invariant row <= gdiv(len(data), rowSize) && gdiv(len(data), rowSize) * rowSize == len(data)
 //@     invariant row * rowSize < len(data) ==> cg[row * rowSize] == 0
+//@     decreases gdiv(len(data), rowSize) - row
 //@     invariant forall k int :: 0 <= k && k < row * rowSize ==> result[k] == raw[k]
 //@   loop 1:
 //@     invariant 0 <= col && col <= rowSize && rowStart >= 0 && rowStart == row * rowSize && len(result) == len(data) && rowStart + rowSize <= len(data)
 //@     invariant col < rowSize ==> cg[rowStart + col] == col
+//@     decreases rowSize - col
 //@     invariant col == rowSize && rowStart + col < len(data) ==> cg[rowStart + col] == 0
 //@     invariant forall k int :: 0 <= k && k < rowStart + col ==> result[k] == raw[k]
 
@@ -148,11 +158,29 @@ package filters
 //@     invariant 0 <= j && j <= numBytes && numBytes <= 4 && len(result) == entry(len(result)) + j && (forall k int :: {result[k]} 0 <= k && k < entry(len(result)) ==> result[k] == entry(result)[k]) && (forall k int :: {result[k]} entry(len(result)) <= k && k < len(result) ==> result[k] == be32byte(value, k - entry(len(result))))
 //@     decreases numBytes - j
 
-// zlib inflate + predictor: a deterministic function of the stream bytes and the parameters (assumed: the inflate
-// step is library code; the predictors it ends with are verified above)
-//@ func FlateDecode results (res, err)
+// zlib inflate is library code: assumed to be a deterministic function of the compressed bytes
+//@ func zlibDecompress results (out, err)
 //@   property C05
 //@   flags pure, trusted
+
+// /Predictor 1 = none, 2 = TIFF predictor 2, 10..15 = PNG predictors (the per-row tag decides), anything else is an error
+//@ func applyPredictor results (out, err)
+//@   property C05
+//@   flags pure
+//@   ensures identity: predictor == 1 ==> !err && sameseq(out, data)
+//@   ensures tiff: predictor == 2 ==> sameseq(out, applyTIFFPredictor2(data, params)) && err == applyTIFFPredictor2$1(data, params)
+//@   ensures png: 10 <= predictor && predictor <= 15 ==> sameseq(out, applyPNGPredictor(data, predictor, params)) && err == applyPNGPredictor$1(data, predictor, params)
+//@   ensures unsupported_is_error: !(predictor == 1 || predictor == 2 || (10 <= predictor && predictor <= 15)) ==> err
+
+// Flate = inflate, then the predictor named by /Predictor (absent, null or 1: none)
+//@ func FlateDecode results (res, err)
+//@   property C05
+//@   flags pure
+//@   let pred = getIntParam(params, "Predictor", 1)
+//@   let plain = isnil(params) || !has(params, "Predictor") || isnil(params["Predictor"]) || pred == 1
+//@   ensures inflate_error: zlibDecompress$1(data) ==> err
+//@   ensures no_predictor: !zlibDecompress$1(data) && plain ==> !err && sameseq(res, zlibDecompress(data))
+//@   ensures with_predictor: !zlibDecompress$1(data) && !plain ==> (err <==> applyPredictor$1(zlibDecompress(data), pred, params)) && (!err ==> sameseq(res, applyPredictor(zlibDecompress(data), pred, params)))
 
 //@ func CCITTFaxDecode results (res, err)
 //@   property C05
